@@ -193,4 +193,9 @@ theorem loader_pinned_counterexample :
 /-- generated fact: `_construct_locales` falls back to the plain language where the regional form does not exist (it does not drop it) -/
 theorem loader_fallback_source : DP.Gen.loaderFallsBack = true := by decide
 
+/-- generated facts: every locale object is built from a private deep copy of its language's data, merged with the regional overlay into a
+    fresh mapping — so that building one locale (popping `locale_specific`, extending a list) cannot change what a later one is built from;
+    this is what lets `constructLocales` take the language data as a constant -/
+theorem loader_private_data_source : Gen.loaderCopiesLanguageData = true ∧ Gen.combineDictsFresh = true := by decide
+
 end DP.Loader
